@@ -419,23 +419,37 @@ def r13_1(ctx: Ctx):
                            decimals_poly=repr(p))
     if dec_ok is None:
         ctx.ob("R13.1", d, "inferred position format", True, "shape not recognised", undecided=True)
-    defs_d = {s_.targets[0].id: s_ for s_ in walk_no_nested(d.node) if isinstance(s_, ast.Assign) and isinstance(s_.targets[0], ast.Name)}
+    from ..pat import find as pfind
     pmd = parents_map(d.node)
-    vel_ok = True
+    ret_dicts = [n_ for n_ in walk_no_nested(d.node) if isinstance(n_, ast.Dict) and any(isinstance(k_, ast.Constant) and k_.value == "velocities" for k_ in n_.keys)]
+    velv = figv = None
+    if ret_dicts:
+        for k_, v_ in zip(ret_dicts[0].keys, ret_dicts[0].values):
+            if k_.value == "velocities" and isinstance(v_, ast.Name):
+                velv = v_.id
+            if k_.value == "position" and isinstance(v_, ast.Tuple) and isinstance(v_.elts[0], ast.Name):
+                figv = v_.elts[0].id
     seen_vals = {}
+    ndv = None
     for s_ in walk_no_nested(d.node):
-        if isinstance(s_, ast.Assign) and norm(s_.targets[0]) == "velocities" and isinstance(s_.value, ast.Constant):
-            g_ = [(norm(t), pol) for t, pol in guards_of(s_, pmd)]
-            seen_vals[s_.value.value] = g_
-    vel_ok = sorted(seen_vals.get(False, [])) == [("ndots == 3", True)] and \
-        sorted(seen_vals.get(True, [])) == [("ndots == 3", False), ("ndots == 6", True)]
+        if isinstance(s_, ast.Assign) and velv and norm(s_.targets[0]) == velv and isinstance(s_.value, ast.Constant):
+            g_ = guards_of(s_, pmd)
+            for t_, pol_ in g_:
+                if isinstance(t_, ast.Compare) and isinstance(t_.left, ast.Name):
+                    ndv = t_.left.id
+            seen_vals[s_.value.value] = sorted((norm(t_), pol_) for t_, pol_ in g_)
+    vel_ok = ndv is not None and seen_vals.get(False) == [("%s == 3" % ndv, True)] and \
+        seen_vals.get(True) == sorted([("%s == 3" % ndv, False), ("%s == 6" % ndv, True)])
     ctx.ob("R13.1", d, "velocities flag from the number of decimal points: %s" % seen_vals, vel_ok,
            "three decimal points after the header mean positions only, six mean positions and velocities, anything else is refused",
            node=d.node)
-    fig = defs_d.get("nfigures")
-    okf = fig is not None and norm(fig.value).replace(" ", "") in ("(size-cls.COORD_START)//ndots",)
-    ctx.ob("R13.1", d, fig if fig is not None else "field width", okf,
-           "the field width is (line length - header width) // number of float fields", node=fig if fig is not None else d.node)
+    figs = pfind(d.node, "V_fig = (V_size - cls.COORD_START) // V_nd")
+    okf = any(b_["V_fig"] == figv and b_["V_nd"] == ndv for _, b_ in figs)
+    if okf:
+        szb = [b_ for _, b_ in figs if b_["V_fig"] == figv][0]["V_size"]
+        okf = bool(pfind(d.node, "%s = len(V_line)" % szb))
+    ctx.ob("R13.1", d, figs[0][0] if figs else "field width", okf,
+           "the field width is (line length - header width) // number of float fields", node=figs[0][0] if figs else d.node)
     n += 2
     cs = d.cls.consts.get("COORD_START") if d.cls else None
     hdr = Poly.const(0)
